@@ -328,6 +328,18 @@ def ledger_episode(ctx, props, chain=False, discrete=False, prebuilt=None):
                     refused = None
                 except Exception:
                     refused = True
+                if refused and rng.random() < 0.4:
+                    # a retry loop: the same refused decision is submitted again, once or twice, at the same instant
+                    for _r in range(rng.choice([1, 2])):
+                        try:
+                            env.step(bad)
+                            refused = False
+                        except EndOfEpisodeError:
+                            refused = None
+                            break
+                        except Exception:
+                            pass
+                    ctx.cat("decision-refused-several-times-in-a-row")
                 if refused is not None:
                     pfx = "C08" if "C08" in props else "C07" if "C07" in props else "C01"
                     noncash = lambda h_: {c_: q_ for c_, q_ in h_.items() if not isinstance(c_, Cash)}
